@@ -53,3 +53,27 @@ Proof.
   split; [repeat constructor; intros []|]. split; [intros t [<-|[]]; eexists; reflexivity|]. split; [discriminate|]. auto.
 Qed.
 Print Assumptions c11_targets_distinct_refuted_before_39680a3.
+
+(* ---- before fix b107faf (F-NS-STEM-PATH): the namespace-file stem was not validated ----------------------------------------- *)
+(* WITHOUT the validation (build_checked false _ = the state of /repo while pin_c11path_stem_validated = false) the full statement
+   of (14') and of (15) (every stem) is FALSE of the faithful model: known finding F-NS-STEM-PATH (audit G-C11-1).  Witness:
+   ns.T.1.0, ns.a.U.1.0; stem "/x": nothing raises, both namespace files are the ONE path /x.h which does not start with the output
+   directory; stem "../../../e": the namespace file of ns is out/ns/../../../e.h, which resolves ABOVE out.  The validating code
+   refuses both.  Fixed by b107faf (stem validation). *)
+Theorem C11_written_paths_inside_outdir_refuted_before_b107faf :
+  exists (types : list ty) (abs_stem up_stem : str) (q1 q2 : path),
+    NoDup types /\ one_root w_ns types /\ types <> [] /\
+    build_checked false true same same true w_ext abs_stem w_out w_id types <> None /\
+    build_checked true true same same true w_ext abs_stem w_out w_id types = None /\
+    build_checked true true same same true w_ext up_stem w_out w_id types = None /\
+    ns_path same w_ext abs_stem w_out [w_ns] = q1 /\ ns_path same w_ext abs_stem w_out [w_ns; [97]] = q1 /\
+    In q1 (c11_targets same true w_ext abs_stem w_out true w_id types) /\ (forall rel, q1 <> w_out ++ rel) /\
+    In (w_out ++ q2) (c11_targets same true w_ext up_stem w_out true w_id types) /\
+    resolve (rev w_out) q2 = [[101; 46; 104]].
+Proof.
+  exists [w_T; w_U], w_abs_stem, w_up_stem, [[47]; [120; 46; 104]], [w_ns; [46; 46]; [46; 46]; [46; 46]; [101; 46; 104]].
+  destruct stem_path_witness as (A & B & C & D & E & F & G & H).
+  split; [repeat constructor; cbn [In]; intuition discriminate|]. split; [intros t [<-|[<-|[]]]; eexists; reflexivity|].
+  split; [discriminate|]. repeat (split; [assumption|]). split; [intros rel X; discriminate X|]. split; assumption.
+Qed.
+Print Assumptions C11_written_paths_inside_outdir_refuted_before_b107faf.
